@@ -166,10 +166,10 @@ def run(ck):
     m = ck.repo.mod(PY)
     cls = m.cls("TranslatorPython")
     fn = m.func("TranslatorPython.from_ExprOp")
-    ck.rule("R1", "each operator token emitted into Python source means the reference operation once masked", floor=14)
-    ck.rule("R1b", "slice/compose/cond/memory shapes of the emitted Python source", floor=4)
-    ck.rule("R2", "the construction translator emits the same class with every identity field in constructor order", floor=8)
-    ck.rule("TC", "the translation memo table is private to the translator object, keyed by the expression itself, and filled by the class's own handler", floor=4)
+    ck.rule("R1", "each operator token emitted into Python source means the reference operation once masked", floor=7)
+    ck.rule("R1b", "slice/compose/cond/memory shapes of the emitted Python source", floor=2)
+    ck.rule("R2", "the construction translator emits the same class with every identity field in constructor order", floor=4)
+    ck.rule("TC", "the translation memo table is private to the translator object, keyed by the expression itself, and filled by the class's own handler", floor=2)
     from rules._transcache import translator_cache_rules
     translator_cache_rules(ck, "TC")
 
